@@ -74,7 +74,7 @@ theorem uniteEdge_inv (h2 : TrieInv d2 l2 M2) {e : Edge} (he : e ∈ d2.trans) {
     simp only [hsrc] at hr
     injection hr with hr
     subst hr
-    exact ⟨l, M, inv, fun hc => ⟨hc, fun _ => Iff.rfl, by simp [hsrc]⟩⟩
+    exact ⟨l, M, inv, fun hc => ⟨hc, fun _ => Iff.rfl, by simp⟩⟩
   | some rs =>
     simp only [hsrc] at hr
     obtain ⟨hsrc2, hrs, hlrs⟩ := inv.mapOk e.src rs hsrc
@@ -129,7 +129,7 @@ theorem uniteEdge_inv (h2 : TrieInv d2 l2 M2) {e : Edge} (he : e ∈ d2.trans) {
         simp only [hmap] at hm
         exact inv.noconf s2 h0 hm
       · intro hc
-        refine ⟨hc, fun x => by simp only [hmap], fun _ => by simp [hdst]⟩
+        refine ⟨hc, fun x => by simp only [hmap], fun _ => by simp⟩
     | none =>
       simp only [hdst, Option.isNone_none, if_true] at hr
       have hop : d2.prods[e.dst]? = some (M2 (l2 e.dst)) := h2.prods e.dst hdst2
